@@ -122,6 +122,9 @@ func (o c18Opt) namingGroup() string {
 	return strings.Join(p, "+")
 }
 
+// class prefix of data points Prometheus cannot represent (unit "points")
+const c18Unrepresentable = "unrepresentable: "
+
 type c18Set struct {
 	class string
 	kvs   []attribute.KeyValue
@@ -923,6 +926,21 @@ func counterClass(k c18Kind) string {
 func dropClass(k c18Kind, sch string, sets []c18Set) string {
 	if k.agg == c18ExpoDefault {
 		return "exponential histogram at the SDK default MaxScale 20"
+	}
+	// unit "points": data points Prometheus has no representation for keep their own class,
+	// alone or among themselves, so that the recorded defect stays apart from any other loss
+	unrep := len(sets) > 0
+	for _, s := range sets {
+		unrep = unrep && strings.HasPrefix(s.class, c18Unrepresentable)
+	}
+	if unrep {
+		class := strings.TrimPrefix(sets[0].class, c18Unrepresentable)
+		for _, s := range sets[1:] {
+			if s.class != sets[0].class {
+				class = "only exponential histogram data points at scales outside -4..8"
+			}
+		}
+		return class
 	}
 	class := sets[0].class
 	for _, s := range sets[1:] {
